@@ -132,6 +132,11 @@ Proof. exact aggregate_in_cidr. Qed.
 Theorem C08_compatible_exact : forall a b p, compatible a b p = true <-> ~ collide a b p.
 Proof. exact compatible_spec. Qed.
 
+(* the compatibility check is symmetric in the two advertisements: which one reaches
+   config.For first does not matter for the pair's verdict *)
+Theorem C08_localpref_check_symmetric : forall a b p, compatible a b p = compatible b a p.
+Proof. exact compatible_sym. Qed.
+
 (* THE LOCAL-PREFERENCE CLAUSE.  validateBGPAdvPerPool looks at ONE pool at a time, so what is
    proved in general is the same-pool form; across pools see below. *)
 (* accepted => two advertisements attached to the SAME pool with different local preferences
